@@ -3,6 +3,7 @@ package sim
 import (
 	"fmt"
 	"sort"
+	"strings"
 
 	"github.com/jimlambrt/gldap"
 )
@@ -121,6 +122,45 @@ func (sp *RespSpec) model(msgID int64, again bool) *Expect {
 		}
 	}
 	return e
+}
+
+// PadTo makes the frame of this (non-entry) response exactly target bytes
+// long by giving it a diagnostic message of the right length as its last
+// setter: sizes at and around the connection's write-buffer size.
+func (sp *RespSpec) PadTo(msgID int64, target int) {
+	if sp.Ctor == "entry" {
+		return
+	}
+	var keep []Setter
+	for _, st := range sp.Setters {
+		if st.Kind != "controls" && st.Kind != "diag" {
+			keep = append(keep, st)
+		}
+	}
+	sp.Again = nil
+	if !sp.HasCode {
+		sp.HasCode, sp.Code = true, 0
+	}
+	size := func(n int) int {
+		sp.Setters = append(append([]Setter{}, keep...), Setter{Kind: "diag", Str: strings.Repeat("p", n)})
+		e := sp.Model(msgID)
+		matched := ""
+		if e.Matched != nil {
+			matched = *e.Matched
+		}
+		return len(tSeq(tInt(msgID), tApp(e.Tag, tEnum(*e.Code), tOctet(matched), tOctet(*e.Diag))).Enc())
+	}
+	n := target - size(0)
+	for i := 0; i < 4 && n >= 0; i++ {
+		d := target - size(n)
+		if d == 0 {
+			return
+		}
+		n += d
+	}
+	if n < 0 {
+		size(0)
+	}
 }
 
 // Match compares a received frame with the expectation; "" if it matches.
@@ -298,6 +338,7 @@ func (sp *RespSpec) Build(r *gldap.Request, reuse *ctrlReuse) (resp gldap.Respon
 	}
 	var b base
 	var setCtrls func(...gldap.Control)
+	var setName func(gldap.ExtendedOperationName)
 	var entry *gldap.SearchResponseEntry
 	switch sp.Ctor {
 	case "bind":
@@ -309,6 +350,7 @@ func (sp *RespSpec) Build(r *gldap.Request, reuse *ctrlReuse) (resp gldap.Respon
 	case "extended":
 		x := r.NewExtendedResponse(opts...)
 		resp, b = x, x
+		setName = x.SetResponseName
 	case "general":
 		x := r.NewResponse(opts...)
 		resp, b = x, x
@@ -331,6 +373,10 @@ func (sp *RespSpec) Build(r *gldap.Request, reuse *ctrlReuse) (resp gldap.Respon
 				b.SetDiagnosticMessage(s.Str)
 			case "matched":
 				b.SetMatchedDN(s.Str)
+			case "respname":
+				if setName != nil {
+					setName(gldap.ExtendedOperationName(s.Str))
+				}
 			case "controls":
 				var cs []gldap.Control
 				if reuse != nil {
@@ -446,6 +492,11 @@ func (g *Gen) Resp(op string, final bool, rich bool) *RespSpec {
 		case 2:
 			sp.Setters = append(sp.Setters, Setter{Kind: "matched", Str: g.Str()})
 		}
+	}
+	if sp.Ctor == "extended" && g.Ch.Choose(3) == 2 {
+		// SetResponseName: not among the values C04 lists, but the frame must
+		// stay a well-formed LDAPResult with the values that are
+		sp.Setters = append(sp.Setters, Setter{Kind: "respname", Str: []string{"1.3.6.1.4.1.1466.20037", "1.3.6.1.4.1.4203.1.11.3", ""}[g.Ch.Choose(3)]})
 	}
 	if g.Ch.Choose(6) == 5 {
 		// written once, changed, written again (as a handler does that
